@@ -94,7 +94,7 @@ Theorem C17_decisions :
                             uc_manifest := Some (expected_manifest (rm_package c)); uc_extra := [] |}
     | InvalidResponse => None
     end.
-Proof. intro c. reflexivity. Qed.
+Proof. exact expected_update_check_cases. Qed.
 
 (* "invalid response": one requested check configured InvalidResponse and the parser refuses the reply ... *)
 Theorem C17_invalid_response_refused :
@@ -164,7 +164,7 @@ Theorem C17_key_lookup :
   forall ks id,
     find_key ks id =
     if fst (keys_latest ks) =? id then Some (snd (keys_latest ks)) else find_in id (keys_historical ks).
-Proof. intros [[i k] h] id. reflexivity. Qed.
+Proof. exact find_key_cases. Qed.
 
 (* ------------------------------------------------------------------ *)
 (* ... and for no other exchange                                        *)
